@@ -58,6 +58,26 @@ def decision_check(res, inproc, rng, n):
         else:
             fsrc = ";"
         cases.append((a, names, fsrc))
+    # systematic: a sole placeholder with every single modifier (and none), every way of naming its argument
+    mods = ["", ":<", ":^", ":>", ":*<", ":é^", ":+", ":-", ":#", ":0", ":5", ":05", ":.2", ":.0", ":1$", ":w$", ":.1$", ":.p$", ":.*", ":x?", ":X?",
+            ":?", ":x", ":X", ":o", ":b", ":e", ":E", ":p", ":-?", ":-x", ":+e", ":#?", ":#x", ":<p", ":0p", " ", ":? "]
+    forms = [("{%s}", [(None, "_0", "_0")]), ("{0%s}", [(None, "_0", "_0")]), ("{_0%s}", []), ("{a%s}", [("a", "_0", "_0")]),
+             ("{%s}", [(None, None, "_0.clone()")]), ("{%s}", [("a", "_0", "_0")])]
+    for m in mods:
+        for tmpl, args in forms:
+            lit = tmpl % m
+            arg_srcs = [(f"{al} = {src}" if al else src) for al, _, src in args]
+            extra = []
+            if "1$" in m:
+                extra = ["3"]
+            elif "w$" in m or "p$" in m:
+                extra = [f"{m.strip(':.')[0]} = 3"]
+            elif ".*" in m:
+                arg_srcs = ["2"] + arg_srcs if args and args[0][0] is None else arg_srcs + ["2"]
+            src_ = '"' + lit + '"' + "".join(", " + x for x in arg_srcs + extra)
+            all_args = list(args) if not extra and ".*" not in m else None
+            a = {"lit": lit, "src": src_, "args": all_args if all_args is not None else [(None, None, "x")] * (len(arg_srcs) + len(extra) + (1 if ".*" in m else 0))}
+            cases.append((a, ["_0"], "(u8);"))
     impl = C.drive(inproc, [f"attr {C.hexs(a['src'])} {C.hexs(f)}" for a, _, f in cases])
     rpf = C.drive_rpf(["fmt " + C.hexs(a["lit"]) for a, _, _ in cases])
     n_deleg = n_write = 0
@@ -129,7 +149,7 @@ def templates():
         ('"{_1<Y>}"', two), ('"{0<Y>}", self.0', one), ('"{_0<Y> }"', one),
     ]
     inert = [
-        ('"{_0:>5<y>}"', one), ('"{_0:+<y>}"', one), ('"{_0:#<y>}"', one), ('"{_0:07<y>}"', one),
+        ('"{_0:>5<y>}"', one), ('"{_0:+<y>}"', one), ('"{_0:-<y>}"', one), ('"{:-<y>}", _0', one), ('"{_0:^<y>}"', one), ('"{_0:#<y>}"', one), ('"{_0:07<y>}"', one),
         ('"{_0:.2<y>}"', one), ('"{_0:x?}"', one), ('"v={_0<Y>}"', one), ('"{_0<Y>}{_0<Y>}"', one),
         ('"{{{_0<Y>}"', one), ('"{_0<Y>} "', one), ('"{0<Y>}{1}", _0, _1', pair),
         ('"{_0:0$<y>}", 9', one), ('"{:w$<y>}", _0, w = 3', one),
@@ -189,7 +209,15 @@ def behaviour(res, rng, tier):
     try:
         rc, out, err = C.scratch_run(d)
         if "DONE" not in out:
-            raise C.BuildError("behaviour grid crate (real proc-macro) did not build/run", (err or out)[-3000:])
+            # a case that does not compile is a finding about that case (a flag-free placeholder format! accepts)
+            rc2, diags, err2 = C.scratch_check(d)
+            by, stray = cf.errors_by_case(diags)
+            for cid, errs in list(by.items())[:8]:
+                res.violation("compile:" + meta[str(cid)], f"{meta[str(cid)]}: does not compile: {errs[0][:240]}",
+                              {"cmd": "compile", "case": meta[str(cid)], "errors": errs[:3]})
+            if not by:
+                raise C.BuildError("behaviour grid crate (real proc-macro) did not build/run", (err or out)[-3000:])
+            return 0, len(meta), specs, meta
         fails = [l for l in out.splitlines() if l.startswith("FAIL|")]
         done = [l for l in out.splitlines() if l.startswith("DONE")][0]
         checks = int(done.split("checks=")[1].split()[0])
